@@ -33,6 +33,17 @@ func (P *Program) mergedContract(ct *Contract) (*Contract, *Contract) {
 		return ct, nil
 	}
 	ic := P.ifaces[ct.Pkg+"."+ct.Implements]
+	if ic == nil && strings.Contains(ct.Implements, ".") {
+		// qualified: pkgname.Iface
+		k := strings.Index(ct.Implements, ".")
+		pn, in := ct.Implements[:k], ct.Implements[k+1:]
+		for key, cand := range P.ifaces {
+			if cand.Name == in && (strings.HasSuffix(cand.Pkg, "/"+pn) || cand.Pkg == pn) {
+				_ = key
+				ic = cand
+			}
+		}
+	}
 	if ic == nil {
 		return ct, nil
 	}
@@ -167,6 +178,9 @@ func (P *Program) VerifyFunc(ct *Contract, fn *ssa.Function) (res *FuncResult) {
 		}
 	}
 	for _, c := range ct.Ensures {
+		all = append(all, ens{c, pkg, ct.Target})
+	}
+	for _, c := range ct.Claims {
 		all = append(all, ens{c, pkg, ct.Target})
 	}
 	// ghost updates at every return
